@@ -44,6 +44,8 @@
 #include "pick_anchor.h"
 #include "esl_stopwatch.h"
 
+#include "kalign_verif.h"
+
 struct node{
         struct node* left;
         struct node* right;
@@ -123,6 +125,7 @@ int build_tree_kmeans(struct msa* msa, struct aln_tasks** tasks)
         RUNP(anchors = pick_anchor(msa, &num_anchors));
 
         RUNP(dm = d_estimation(msa, anchors, num_anchors,0));//les,int pair)
+        KV_HOOK(kv_dm(dm, msa->numseq, num_anchors, 0));
 
 
         STOP_TIMER(timer);
@@ -192,14 +195,23 @@ int bisecting_kmeans(struct msa* msa, struct node** ret_n, const float * const *
 
         /* LOG_MSG("num_samples: %d", num_samples); */
         num_anchors = MACRO_MIN(32, msa->numseq);
+#ifdef KALIGN_VERIF
+        uint32_t kv_id = 0;
+        if(kv_level){
+                kv_id = kv_digest_ints(samples, num_samples);
+                kv_km_node(kv_id, num_samples, num_samples < 100);
+        }
+#endif
 
         if(num_samples < 100){
                 float** dm = NULL;
                 RUNP(dm = d_estimation(msa, samples, num_samples,1));// anchors, num_anchors,1));
+                KV_HOOK(kv_dm(dm, num_samples, num_samples, 1));
                 n = upgma(dm,samples, num_samples);
                 *ret_n = n;
                 gfree(dm);
                 MFREE(samples);
+                KV_HOOK(kv_km_done(kv_id));
                 return OK;
                 //return n;
         }
@@ -244,6 +256,15 @@ int bisecting_kmeans(struct msa* msa, struct node** ret_n, const float * const *
 #ifdef HAVE_OPENMP
 #pragma omp taskwait
 #endif
+#ifdef KALIGN_VERIF
+                if(kv_level){
+                        uint32_t kv_dg[4];
+                        for(j = 0; j < 4;j++){
+                                kv_dg[j] = res[j] ? kv_km_result_digest(res[j]->sl, res[j]->nl, res[j]->sr, res[j]->nr, res[j]->score) : 0;
+                        }
+                        kv_km_reduce(kv_id, i, step, kv_dg);
+                }
+#endif
 
                 for(j = 0; j < 4;j++){
                         if(!best){
@@ -285,6 +306,7 @@ int bisecting_kmeans(struct msa* msa, struct node** ret_n, const float * const *
 
         MFREE(samples);
         n = alloc_node();
+        KV_HOOK(kv_km_kids(kv_id, kv_digest_ints(sl, num_l), kv_digest_ints(sr, num_r), num_l, num_r));
 
 /* #ifdef HAVE_OPENMP */
 /* #pragma omp parallel //num_threads(2) */
@@ -302,6 +324,7 @@ int bisecting_kmeans(struct msa* msa, struct node** ret_n, const float * const *
 #ifdef HAVE_OPENMP
 #pragma omp taskwait
 #endif
+        KV_HOOK(kv_km_done(kv_id));
 
         *ret_n =n;
         return OK;
@@ -868,6 +891,7 @@ int split2(const float * const * dm,const int* samples, const int num_anchors,co
         res->nl =  num_l;
         res->nr =  num_r;
         res->score = score;
+        KV_HOOK(kv_km_split(samples, num_samples, seed_pick, sl, num_l, sr, num_r, score));
         *ret = res;
         return OK;
 ERROR:
